@@ -12,6 +12,7 @@ import ZV.Driver.C13
 import ZV.Driver.Lub
 import ZV.Driver.CK
 import ZV.Driver.ZCore
+import ZV.Driver.Sps
 
 def dispatch (line : String) : String :=
   match line.trimAscii.toString.splitOn " " with
@@ -27,6 +28,7 @@ def dispatch (line : String) : String :=
   | "c13" :: ws => ZV.Driver.C13.handle ws
   | "ck" :: ws => ZV.Driver.CK.handle ws
   | "c11" :: ws => ZV.Driver.C11.handle ws
+  | "sps" :: ws => ZV.Driver.Sps.handle ws
   | _ => "bad-op"
 
 partial def loop (h : IO.FS.Stream) (out : IO.FS.Stream) : IO Unit := do
